@@ -3,6 +3,7 @@ From Coq Require Import Bool List String QArith Lqa.
 From Demes Require Import Base.Num Base.Py Model.MDM Model.SizeAt Spec.Valid.
 Import ListNotations.
 Local Open Scope string_scope.
+Local Open Scope list_scope.
 
 Section SizeAtProofs.
   Context {N : NumOps} {L : NumLaws N}.
